@@ -171,3 +171,74 @@ def resave_is_byte_stable(H, cname):
     H.check("second_cycle_bytes_equal_first_cycle_bytes", H.eq(z, y))
     H.check("same_length", len(z) == len(y))
     H.cover("reached")
+
+
+# ------------------------------------------------------------------------------- fixtures (bounded)
+
+
+def _fixture_cases(tier):
+    from .c04 import _fixture_cases as fc
+
+    return fc(tier)
+
+
+def _cycle(data):
+    import io
+
+    from rv.readers.reader import read_sunvox_file
+
+    obj = read_sunvox_file(io.BytesIO(data))
+    f = io.BytesIO()
+    obj.write_to(f)
+    return obj, f.getvalue()
+
+
+def _mutations(data):
+    """The fixture itself plus copies whose CVAL payloads hold out-of-range stored values."""
+    import struct
+
+    from spec import format as F
+
+    yield "as shipped", data
+    chunks = F.parse_stream(data)
+    cv = [i for i, c in enumerate(chunks) if bytes(c[0]) == b"CVAL" and len(c[1]) == 4]
+    if cv:
+        for label, val in (("every CVAL = 0x7FFFFFFF", 0x7FFFFFFF), ("every CVAL = -1", -1), ("every CVAL = 70000", 70000)):
+            edited = [(cid, struct.pack("<i", val) if i in cv else payload) for i, (cid, payload) in enumerate(chunks)]
+            yield label, b"".join(F.frame(bytes(cid), bytes(payload)) for cid, payload in edited)
+
+
+@contract(
+    "fixtures_resave_stable", ["C05"], kind="bounded", cases=_fixture_cases,
+    targets=["rv.readers.reader:read_sunvox_file", "rv.container:Container.write_to", "rv.modules.sampler:Sampler.specialized_iff_chunks",
+             "rv.modules.sampler:Sampler.load_chunk", "rv.modules.module:Module.load_options"],
+    bound="all shipped fixture files, as shipped and with every 4-byte CVAL payload replaced by 0x7FFFFFFF, -1 and 70000; three load/save cycles in ONE process (state kept by classes would accumulate), natively",
+)
+def fixtures_resave_stable(H, path):
+    """X = fixture bytes; Y = save(load(X)); loading Y and saving again yields exactly Y, also on the
+    third cycle and although the same file has been loaded before in this process; saving the same
+    loaded object twice (with another load of the file in between) yields identical bytes."""
+    import os
+
+    data = open(path, "rb").read()
+    for label, x in _mutations(data):
+        w = {"file": os.path.basename(path), "variant": label}
+        try:
+            obj1, y = _cycle(x)
+        except Exception as e:  # noqa - not loadable (e.g. an enum controller with a non-member value): outside the property
+            if label == "as shipped":
+                H.check("fixture_loads", False, witness=dict(w, error=repr(e)))
+            continue
+        try:
+            _obj2, z = _cycle(y)
+            _obj3, z2 = _cycle(z)
+        except Exception as e:  # noqa
+            H.check("resaved_file_loads_again", False, witness=dict(w, error=repr(e)))
+            continue
+        H.check("second_cycle_equals_first", z == y, witness=dict(w, len_y=len(y), len_z=len(z)))
+        H.check("third_cycle_equals_first", z2 == y, witness=dict(w, len_y=len(y), len_z=len(z2)))
+        import io
+
+        f = io.BytesIO()
+        obj1.write_to(f)
+        H.check("saving_the_same_object_again_gives_the_same_bytes", f.getvalue() == y, witness=dict(w, len_first=len(y), len_again=len(f.getvalue())))
